@@ -181,51 +181,107 @@ theorem C17_encodeUrl_rejects_bad_port (e : Env) (s : Str) (pt : Parts) (hsp : s
   rw [if_neg (by simpa using hn), authSplit_eq _ _ hn, hsn]
   rfl
 
-/-- `URL.build(authority=…)` (auto-encoding mode, `port=` an int or None, the `query=` argument — if any —
-    convertible) raises ValueError for such an authority.  With `encoded=True` the authority is stored
-    unchecked (instance below): the bad port is then reported by `explicit_port` / `str()` on first use. -/
-theorem C17_build_rejects_bad_port (e : Env) (a : BuildArgs) (henc : a.encoded = false) (hk : a.portKind = 0)
-    (hq : qargTruthy a.query = true → ∃ r, getStrQuery e.b a.query = .ok r)
+/-- `URL.build(authority=…)` (auto-encoding mode) NEVER accepts such an authority, and (with `port=` an int or
+    None and the `query=` argument — if any — convertible) the error is ValueError as soon as the two steps `build`
+    now runs in front of `split_netloc` can be answered: lowering the scheme (fix e21485a; an oracle call for a
+    non-ASCII scheme only) and the NFKC screen (fix c2c2803; an oracle call for a non-ASCII authority only — whether
+    it passes or raises ValueError itself).  HYPOTHESES ADDED for the exact error kind (`hl`, `hnf`): without them
+    the statement "= ValueError" became false — `build(scheme="é", authority="h:99999")` on an oracle table without
+    an entry for `"é".lower()` now stops at that request (`C17_build_bad_port_oracle_first`).
+    With `encoded=True` the authority is stored unchecked (instance below): the bad port is then reported by
+    `explicit_port` / `str()` on first use. -/
+theorem C17_build_rejects_bad_port (e : Env) (a : BuildArgs) (henc : a.encoded = false)
     (hne : portText a.authority ≠ [])
     (hbad : pyInt e.o (portText a.authority) = .ok none ∨
       ∃ p, pyInt e.o (portText a.authority) = .ok (some p) ∧ ¬ (0 ≤ p ∧ p ≤ 65535)) :
-    build e a = .error .valueError := by
+    (∀ u, build e a ≠ .ok u) ∧
+    (a.portKind = 0 → (qargTruthy a.query = true → ∃ r, getStrQuery e.b a.query = .ok r) →
+      (∃ sc, lowerAny e a.scheme = .ok sc) →
+      (isAscii a.authority = false →
+        ∃ nn, e.o.nfkc (a.authority.filter (fun c => c ≠ 64 ∧ c ≠ 58 ∧ c ≠ 35 ∧ c ≠ 63)) = some nn) →
+      build e a = .error .valueError) := by
   have hsn : splitNetloc e.o a.authority = .error .valueError :=
     C17_headline_port_rejected e.o a.authority hne hbad
   have hn : a.authority.isEmpty = false := by
     cases ha : a.authority with
     | nil => have := portText_colon a.authority hne; rw [ha] at this; cases this
     | cons _ _ => rfl
-  have hqs : ∃ r, (if qargTruthy a.query = true then do
-        pure ((← getStrQuery e.b a.query).getD [])
-      else pure a.queryString : R Str) = .ok r := by
-    by_cases hqt : qargTruthy a.query = true
-    · obtain ⟨r, hr⟩ := hq hqt
-      exact ⟨r.getD [], by rw [if_pos hqt, hr]; rfl⟩
-    · exact ⟨a.queryString, by rw [if_neg hqt]; rfl⟩
-  unfold build
-  simp only [hk]
-  simp only [henc]
-  simp only [hn]
-  simp only [hsn]
-  refine ite_err_all fun _ => ?_
-  rw [if_neg (by decide)]
-  refine ite_err_all fun _ => ?_
-  refine ite_err_all fun _ => ?_
-  refine ite_err_all fun _ => ?_
-  obtain ⟨r, hr⟩ := hqs
-  rw [hr]
-  rfl
+  constructor
+  · intro u hb
+    obtain ⟨sc, _, _, _, hnl, _⟩ := MiscLemmas.build_parts e a u henc hb
+    unfold StrTotal.buildNetloc at hnl
+    simp only [hn, Bool.not_false, if_true] at hnl
+    replace hnl := (BuildFix.screen_ok hnl).1
+    obtain ⟨np, hnp, _⟩ := StrTotal.bind_ok hnl
+    rw [hsn] at hnp
+    cases hnp
+  · intro hk hq ⟨sc, hsc⟩ hnf
+    have hqs : ∃ r, (if qargTruthy a.query = true then do
+          pure ((← getStrQuery e.b a.query).getD [])
+        else pure a.queryString : R Str) = .ok r := by
+      by_cases hqt : qargTruthy a.query = true
+      · obtain ⟨r, hr⟩ := hq hqt
+        exact ⟨r.getD [], by rw [if_pos hqt, hr]; rfl⟩
+      · exact ⟨a.queryString, by rw [if_neg hqt]; rfl⟩
+    -- the screen passes or raises ValueError
+    have hscr : isAscii a.authority = false →
+        checkNetloc e.o a.authority = .ok () ∨ checkNetloc e.o a.authority = .error .valueError := by
+      intro ha
+      obtain ⟨nn, hnn⟩ := hnf ha
+      unfold checkNetloc
+      simp only [hnn, ask, bind, Except.bind]
+      split
+      · exact Or.inl rfl
+      · split
+        · exact Or.inr rfl
+        · exact Or.inl rfl
+    unfold build
+    simp only [hk]
+    refine ite_err_all fun _ => ?_
+    rw [if_neg (by decide)]
+    refine ite_err_all fun _ => ?_
+    refine ite_err_all fun _ => ?_
+    refine ite_err_all fun _ => ?_
+    obtain ⟨r, hr⟩ := hqs
+    rw [hr]
+    show (if a.encoded = true then _ else _) = _
+    rw [henc, if_neg (by decide), hsc]
+    show (do
+      let netloc ← (if (!a.authority.isEmpty) = true then
+          (if (!isAscii a.authority) = true then (do checkNetloc e.o a.authority; _) else _) else _ : R Str)
+      _) = _
+    rw [hn, if_pos (by decide)]
+    by_cases ha : isAscii a.authority = true
+    · rw [ha, if_neg (by decide), hsn]; rfl
+    · have ha' : isAscii a.authority = false := by simpa using ha
+      rw [ha', if_pos (by decide)]
+      rcases hscr ha' with h | h
+      · rw [h]
+        show (do let netloc ← (do let np ← splitNetloc e.o a.authority; _ : R Str); _) = _
+        rw [hsn]; rfl
+      · rw [h]; rfl
 
-/-- C17 GAPS 3, both entry points -/
+/-- the witness for the added hypotheses: a non-ASCII scheme on an empty oracle table — `build` now asks for
+    `"é".lower()` before it looks at the authority (it used to raise ValueError for the port) -/
+theorem C17_build_bad_port_oracle_first : ∀ b : Backend,
+    build ⟨b, Oracles.empty⟩ { scheme := [233], authority := "h:99999".toStr } =
+      .error (.oracleMiss "lowerU" [233]) := by
+  intro b; cases b <;> rfl
+
+/-- C17 GAPS 3, both entry points (for `build`: never accepted; ValueError under the oracle-availability
+    hypotheses of `C17_build_rejects_bad_port`, which an ASCII scheme and an ASCII authority always meet) -/
 theorem C17_ctor_rejects_bad_port (e : Env) (n : Str) (hne : portText n ≠ [])
     (hbad : pyInt e.o (portText n) = .ok none ∨
       ∃ p, pyInt e.o (portText n) = .ok (some p) ∧ ¬ (0 ≤ p ∧ p ≤ 65535)) :
     (∀ s pt, splitUrl e.o s = .ok pt → pt.netloc = n → encodeUrl e s = .error .valueError) ∧
+    (∀ a : BuildArgs, a.authority = n → a.encoded = false → ∀ u, build e a ≠ .ok u) ∧
     (∀ a : BuildArgs, a.authority = n → a.encoded = false → a.portKind = 0 →
-      (qargTruthy a.query = true → ∃ r, getStrQuery e.b a.query = .ok r) → build e a = .error .valueError) :=
+      (qargTruthy a.query = true → ∃ r, getStrQuery e.b a.query = .ok r) →
+      isAscii a.scheme = true → isAscii n = true → build e a = .error .valueError) :=
   ⟨fun s pt h1 h2 => C17_encodeUrl_rejects_bad_port e s pt h1 (by rw [h2]; exact hne) (by rw [h2]; exact hbad),
-   fun a h1 h2 h3 h4 => C17_build_rejects_bad_port e a h2 h3 h4 (by rw [h1]; exact hne) (by rw [h1]; exact hbad)⟩
+   fun a h1 h2 => (C17_build_rejects_bad_port e a h2 (by rw [h1]; exact hne) (by rw [h1]; exact hbad)).1,
+   fun a h1 h2 h3 h4 h5 h6 => (C17_build_rejects_bad_port e a h2 (by rw [h1]; exact hne) (by rw [h1]; exact hbad)).2
+     h3 h4 ⟨_, BuildFix.lowerAny_ascii e a.scheme h5⟩ (fun hna => by rw [h1, h6] at hna; cases hna)⟩
 
 /-! ## Sentence 2 on a URL with (consistent) cache, and on constructor results -/
 
@@ -434,8 +490,8 @@ example (s : Str) (pt : Parts) (h : splitUrl e0.o s = .ok pt) (hn : pt.netloc = 
     encodeUrl e0 s = .error .valueError :=
   (C17_ctor_rejects_bad_port e0 "h:8o".toStr (by decide +kernel) (Or.inl (by decide +kernel))).1 s pt h hn
 example : build e0 { scheme := "http".toStr, authority := "h:8o".toStr, path := "/p".toStr } = .error .valueError :=
-  (C17_ctor_rejects_bad_port e0 "h:8o".toStr (by decide +kernel) (Or.inl (by decide +kernel))).2 _ rfl rfl rfl
-    (fun h => by cases h)
+  (C17_ctor_rejects_bad_port e0 "h:8o".toStr (by decide +kernel) (Or.inl (by decide +kernel))).2.2 _ rfl rfl rfl
+    (fun h => by cases h) (by decide) (by decide)
 
 -- a constructor result with cache and DEFAULT port: hypotheses of the `C17_ctor_*` theorems
 private def sA : Str := "http://me@[::1]:80/p".toStr
